@@ -2,6 +2,7 @@ use alloc::vec::Vec;
 use core::ops::{Deref, DerefMut};
 
 use crate::common::{Encoding, LocationListsOffset, SectionId};
+use crate::write::range::is_base_address_marker;
 use crate::write::{
     Address, BaseId, DebugInfoFixup, Error, Expression, FnvIndexSet, Result, Section, Sections,
     UnitOffsets, Writer,
@@ -113,7 +114,9 @@ impl LocationListTable {
                         end,
                         ref data,
                     } => {
-                        if begin == end {
+                        if begin == end
+                            || is_base_address_marker(Address::Constant(begin), address_size)
+                        {
                             return Err(Error::InvalidRange);
                         }
                         if !have_base_address {
@@ -128,7 +131,7 @@ impl LocationListTable {
                         end,
                         ref data,
                     } => {
-                        if begin == end {
+                        if begin == end || is_base_address_marker(begin, address_size) {
                             return Err(Error::InvalidRange);
                         }
                         if have_base_address {
@@ -144,13 +147,18 @@ impl LocationListTable {
                         ref data,
                     } => {
                         let end = match begin {
-                            Address::Constant(begin) => Address::Constant(begin + length),
+                            Address::Constant(begin) => Address::Constant(
+                                begin.checked_add(length).ok_or(Error::InvalidRange)?,
+                            ),
                             Address::Symbol { symbol, addend } => Address::Symbol {
                                 symbol,
-                                addend: addend + length as i64,
+                                addend: i64::try_from(length)
+                                    .ok()
+                                    .and_then(|length| addend.checked_add(length))
+                                    .ok_or(Error::InvalidRange)?,
                             },
                         };
-                        if begin == end {
+                        if begin == end || is_base_address_marker(begin, address_size) {
                             return Err(Error::InvalidRange);
                         }
                         if have_base_address {
